@@ -1,4 +1,4 @@
-//@ unit props=C02,C12,C08 tier=quick kind=unbounded timeout=180 funcs="<Stream as BitRepr>::write" stubs="BitSink::write_bytes_aligned -> C11 contract; MetadataBlock::write / Frame::write -> append exactly their spec bits after aligning, prefix-monotone on error [Frame::write: Verus unit frame_write; MetadataBlock/StreamInfo: Kani units c08_*]"
+//@ unit props=C02,C12,C08 tier=quick kind=unbounded timeout=180 funcs="<Stream as BitRepr>::write; <Stream as BitRepr>::count_bits" stubs="BitSink::write_bytes_aligned -> C11 contract; MetadataBlock::write / Frame::write -> append exactly their spec bits after aligning, prefix-monotone on error [Frame::write: Verus unit frame_write; MetadataBlock/StreamInfo: Kani units c08_*]"
 // Stream assembly against an ABSTRACT sink, for any number of metadata blocks and frames:
 //   C02  the stream is  "fLaC" ++ STREAMINFO block ++ other metadata blocks ++ frames, in order,
 //        and nothing follows the last frame;
@@ -249,6 +249,14 @@ impl MetadataBlock {
     pub uninterp spec fn spec_bits(&self) -> Seq<bool>;
 
     #[verifier::external_body]
+    pub fn count_bits(&self) -> (r: usize)
+        ensures
+            r == self.spec_bits().len(),
+    {
+        unimplemented!()
+    }
+
+    #[verifier::external_body]
     pub fn write<S: BitSink>(&self, dest: &mut S) -> (r: Result<(), OutputError<S>>)
         ensures
             is_prefix(old(dest).bits(), final(dest).bits()),
@@ -261,6 +269,14 @@ impl MetadataBlock {
 
 impl Frame {
     pub uninterp spec fn spec_bits(&self) -> Seq<bool>;
+
+    #[verifier::external_body]
+    pub fn count_bits(&self) -> (r: usize)
+        ensures
+            r == self.spec_bits().len(),
+    {
+        unimplemented!()
+    }
 
     /// contract proved by Verus unit frame_write (with pad8 == 0 here because every preceding
     /// component is a whole number of bytes; the pad term is kept for generality)
@@ -300,6 +316,48 @@ pub open spec fn frames_bits(base: Seq<bool>, s: Seq<Frame>) -> Seq<bool>
     } else {
         let b = frames_bits(base, s.drop_last());
         b + zeros(pad8(b.len())) + s.last().spec_bits()
+    }
+}
+
+pub open spec fn blocks_len(s: Seq<MetadataBlock>) -> nat
+    decreases s.len(),
+{
+    if s.len() == 0 { 0 } else { blocks_len(s.drop_last()) + s.last().spec_bits().len() }
+}
+
+pub open spec fn frames_len(s: Seq<Frame>) -> nat
+    decreases s.len(),
+{
+    if s.len() == 0 { 0 } else { frames_len(s.drop_last()) + s.last().spec_bits().len() }
+}
+
+pub proof fn lemma_blocks_len_mono(s: Seq<MetadataBlock>, k: int)
+    requires
+        0 <= k <= s.len(),
+    ensures
+        blocks_len(s.take(k)) <= blocks_len(s),
+    decreases s.len() - k,
+{
+    if k == s.len() {
+        assert(s.take(k) =~= s);
+    } else {
+        lemma_blocks_len_mono(s, k + 1);
+        assert(s.take(k + 1).drop_last() =~= s.take(k));
+    }
+}
+
+pub proof fn lemma_frames_len_mono(s: Seq<Frame>, k: int)
+    requires
+        0 <= k <= s.len(),
+    ensures
+        frames_len(s.take(k)) <= frames_len(s),
+    decreases s.len() - k,
+{
+    if k == s.len() {
+        assert(s.take(k) =~= s);
+    } else {
+        lemma_frames_len_mono(s, k + 1);
+        assert(s.take(k + 1).drop_last() =~= s.take(k));
     }
 }
 
@@ -379,6 +437,52 @@ impl Stream {
     {
         self.frames.as_slice()
     }
+
+//@extract file=src/component/bitrepr.rs impl="impl BitRepr for Stream {" fn="fn count_bits"
+//@subst `fn count_bits(&self) -> usize {` => `fn count_bits(&self) -> (r: usize) {`
+//@subst `for elem in self.metadata() {` => `for elem in it: self.metadata() {`
+//@subst `for frame in self.frames() {` => `for frame in it: self.frames() {`
+//@sig
+//|     requires
+//|         32 + self.stream_info.spec_bits().len() + blocks_len(self.metadata@) + frames_len(self.frames@) <= usize::MAX,
+//|     ensures
+//|         // C08: marker + STREAMINFO block + metadata blocks + frames (every component a whole
+//|         // number of bytes, so no padding is added between them)
+//|         r == 32 + self.stream_info.spec_bits().len() + blocks_len(self.metadata@) + frames_len(self.frames@),
+//@loop 1
+//|         invariant
+//|             it.index@ <= self.metadata@.len(),
+//|             ret == 32 + self.stream_info.spec_bits().len() + blocks_len(self.metadata@.take(it.index@)),
+//|             32 + self.stream_info.spec_bits().len() + blocks_len(self.metadata@) + frames_len(self.frames@) <= usize::MAX,
+//@before `ret += elem.count_bits();`
+//|         proof {
+//|             let k = it.index@;
+//|             assert(self.metadata@.take(k + 1).drop_last() =~= self.metadata@.take(k));
+//|             assert(self.metadata@.take(k + 1).last() == *elem);
+//|             lemma_blocks_len_mono(self.metadata@, k + 1);
+//|         }
+//@before `for frame in it: self.frames() {`
+//|     proof {
+//|         assert(self.metadata@.take(self.metadata@.len() as int) =~= self.metadata@);
+//|         assert(self.frames@.take(0) =~= Seq::<Frame>::empty());
+//|     }
+//@loop 2
+//|         invariant
+//|             it.index@ <= self.frames@.len(),
+//|             ret == 32 + self.stream_info.spec_bits().len() + blocks_len(self.metadata@) + frames_len(self.frames@.take(it.index@)),
+//|             32 + self.stream_info.spec_bits().len() + blocks_len(self.metadata@) + frames_len(self.frames@) <= usize::MAX,
+//@before `ret += frame.count_bits();`
+//|         proof {
+//|             let k = it.index@;
+//|             assert(self.frames@.take(k + 1).drop_last() =~= self.frames@.take(k));
+//|             assert(self.frames@.take(k + 1).last() == *frame);
+//|             lemma_frames_len_mono(self.frames@, k + 1);
+//|         }
+//@before `ret\n}`
+//|     proof {
+//|         assert(self.frames@.take(self.frames@.len() as int) =~= self.frames@);
+//|     }
+//@end
 
 //@extract file=src/component/bitrepr.rs impl="impl BitRepr for Stream {" fn="fn write"
 //@subst `fn write<S: BitSink>(&self, dest: &mut S) -> Result<(), OutputError<S>> {` => `fn write<S: BitSink>(&self, dest: &mut S) -> (res: Result<(), OutputError<S>>) {`
